@@ -80,7 +80,7 @@ NEED = ("lock", "add", "sfdelegate", "sfundelegate", "sfunbond", "sfundelunbond"
         "topup:delegated", "clcreate", "cladd", "cladd:refused", "begin", "begin:split", "endblock", "swap", "block", "epoch", "fund", "history:cl",
         "sfdelegate:refused", "sfundelegate:refused", "sfunbond:refused", "begin:refused:delegated", "begin:refused:undelegating",
         "unlock:refused:undelegating", "extend:refused:held",
-        "history:crash-script", "refresh:locks-worth-zero", "refresh:restaked-from-zero")
+        "history:crash-script", "refresh:locks-worth-zero", "refresh:restaked-from-zero", "jail", "topup:delegated-to-jailed")
 
 
 def big(b):
